@@ -36,6 +36,7 @@ class Hoister:
     refusal_flags: tuple[str, ...] = ()
     exceptions: dict | None = None     # position -> reason (frozen, confirmed by reading)
     mask_methods: tuple[str, ...] = () # methods of the context object that return a refusing copy of it
+    extra_positions: tuple[str, ...] = ()  # positions of EXTRA_POSITIONS this rewriter has to mask as well
 
 
 POSITIONS = {
@@ -44,6 +45,13 @@ POSITIONS = {
     'boolop-tail': ('_visit_naryop', ['<And/Or operands after the first>'], '`and` / `or` short-circuit: later operands may not be evaluated'),
     'comp-elt': ('_visit_list_comp', ['e.elt'], 'a comprehension element is evaluated once per item and sees the loop targets'),
     'compare-tail': ('_visit_compare', ['<chain operands after the second>'], 'a chained comparison `a < b < c` stops at the first false link: operands after the second may not be evaluated'),
+}
+
+
+# Positions that are evaluated unconditionally and once, but not under the rounding context of the block the preamble goes
+# to: they matter to a rewriter whose hoisted code rounds (the fused loop evaluates the element of the comprehension).
+EXTRA_POSITIONS = {
+    'with-header': ('_visit_context', ['stmt.ctx'], 'the context expression of a `with` is evaluated exactly, whatever context is active around the statement'),
 }
 
 
@@ -94,7 +102,7 @@ def _is_super_call(k: ast.Call, meth: str) -> bool:
 
 
 def position_masked(repo, h: Hoister, pos: str) -> tuple[bool, str, ast.AST | None]:
-    meth, subs, _ = POSITIONS[pos]
+    meth, subs, _ = (POSITIONS.get(pos) or EXTRA_POSITIONS[pos])
     try:
         c = repo.cls(h.relpath, h.cls)
     except AnchorError:
@@ -166,13 +174,14 @@ def hoist_mask_rule(hoisters: list[Hoister], rule_prefix: str):
                         sets = any(fl in txt for fl in h.refusal_flags) and 'return' in txt
                 ctx.check(sets, h.relpath, c, h.cls, f'context method .{mm}() produces a context with a refusal flag set',
                           'the masking method no longer sets a flag the refusal reads')
-            for pos, (meth, subs, why) in POSITIONS.items():
+            for pos, (meth, subs, why) in list(POSITIONS.items()) + [(p_, EXTRA_POSITIONS[p_]) for p_ in h.extra_positions]:
                 construct = f'{h.cls}: {pos} masked ({h.hoists_what})'
                 if h.exceptions and pos in h.exceptions:
                     ctx.ok(h.relpath, c, h.cls, construct + f' [frozen exception: {h.exceptions[pos]}]', nontrivial=False)
                     continue
                 okk, detail, node = position_masked(repo, h, pos)
                 ctx.check(okk, h.relpath, node or c, h.cls, construct,
-                          f'{detail}. {why}; hoisting {h.hoists_what} out of it runs the hoisted code unconditionally / once '
-                          f'instead of when and as often as the original expression was evaluated')
+                          f'{detail}. {why}; hoisting {h.hoists_what} out of it runs the hoisted code '
+                          + ('under the ambient context instead of exactly' if pos in EXTRA_POSITIONS else
+                             'unconditionally / once instead of when and as often as the original expression was evaluated'))
     return rule
